@@ -139,13 +139,49 @@ def source_shapes(src_text):
 
 # ---------------------------------------------------------------- attribution
 
-def clobber_shape_suffix(srcs, signature=""):
-    """qualify a clobber signature by the shapes of the open findings that can explain it: aliasing
-    (D5/D37) and nested loops (D39) explain clobbers inside one scope, a nested definition (D36) any"""
-    shapes = sorted(set().union(*[source_shapes(t) for t in srcs.values()]))
+def _scoped_texts(srcs, scopes):
+    """source text of the top-level functions that are, or contain, a function named like one of the
+    scopes; the whole file for the module scope ''"""
+    out = []
+    for text in srcs.values():
+        if "" in scopes:
+            out.append(text)
+            continue
+        try:
+            tree = ast.parse(text)
+        except SyntaxError:
+            out.append(text)
+            continue
+        for top in tree.body:
+            if isinstance(top, ast.FunctionDef) and any(isinstance(x, ast.FunctionDef) and x.name in scopes for x in ast.walk(top)):
+                seg = ast.get_source_segment(text, top)
+                if seg:
+                    out.append(seg)
+    return out
+
+
+SHAPE_PRECEDENCE = ("D36", "D37", "D5-", "D39")
+
+
+def clobber_shape_suffix(srcs, signature="", clobber=None):
+    """qualify a clobber signature by the shape of the open finding that can explain it: aliasing
+    (D5/D37) and nested loops (D39) explain clobbers inside one scope, a nested definition (D36) any.
+    Only the functions in which the clobber was written / read are looked at, and of several shapes
+    present there the first in SHAPE_PRECEDENCE names the signature."""
+    texts = list(srcs.values())
+    if clobber and clobber.get("reader_scope") is not None:
+        scopes = {clobber.get("reader_scope") or "", clobber.get("writer_scope") or ""}
+        scoped = _scoped_texts(srcs, scopes)
+        if scoped:
+            texts = scoped
+    shapes = set().union(*[source_shapes(t) for t in texts]) if texts else set()
     same = ":same-scope" in signature or signature == ""
     keep = ("D36",) + (("D37", "D39", "D5-") if same else ())
-    return "".join(":" + s for s in shapes if s.startswith(keep))
+    for pre in SHAPE_PRECEDENCE:
+        for sh in sorted(shapes):
+            if sh.startswith(pre) and sh.startswith(keep):
+                return ":" + sh
+    return ""
 
 
 def shape_suffix(srcs):
@@ -245,7 +281,7 @@ def diff_run(srcs, opts, env_seed, pool, K, res=None, src_steps=20000):
         sig, extra = attribute(res, env_seed, pool, budget, K)
         # clobbers are qualified by the shapes of the open aliasing / nested-function findings
         if sig and sig.startswith("C04:clobber"):
-            sig += clobber_shape_suffix(srcs, sig)
+            sig += clobber_shape_suffix(srcs, sig, (extra or {}).get("clobber"))
         out["root"] = sig
         out["root_detail"] = extra
     return out
